@@ -250,6 +250,21 @@ def run(res, tier, seed):
         base_t = "\n".join(pre + post) + "\n"
         new_t = "\n".join(pre + [inj] + post) + "\n"
         cases.append(("clobber-before-conditional-restore", new_t, ("overwrite-callee-saved-register", {len(pre)}, None), base_t))
+    # class 11 again, whole blocks: every line of a run of unreachable code is reported, not only its first -
+    # blocks that jump to blocks written earlier, code behind an unreachable ecall, code behind the exit
+    blocks = [
+        ("main:\n    li a0, 1\n    j end\nB:\n    addi a0, a0, 1\n    addi a0, a0, 3\n    j end\nA:\n    addi a0, a0, 2\n    j B\nend:\n"
+         "    li a7, 10\n    ecall\n", [4, 5, 6, 8, 9]),
+        ("main:\n    li a0, 1\n    j end\n    li a7, 1\n    ecall\n    addi a0, a0, 1\n    addi a0, a0, 2\nend:\n    li a7, 10\n    ecall\n",
+         [3, 4, 5, 6]),
+        ("main:\n    li a7, 10\n    ecall\n    addi a0, a0, 1\n    addi a0, a0, 2\n    addi a0, a0, 3\n", [3, 4, 5]),
+        ("main:\n    li a0, 1\n    j end\nC:\n    addi a0, a0, 4\n    j end\nB:\n    addi a0, a0, 1\n    j C\nA:\n    addi a0, a0, 2\n    j B\n"
+         "end:\n    li a7, 10\n    ecall\n", [4, 5, 7, 8, 10, 11]),
+    ]
+    for t_, lines_ in blocks:
+        base_ = "\n".join(x for k_, x in enumerate(t_.split("\n")) if k_ not in lines_)
+        for ln_ in lines_:
+            cases.append(("unreachable-block", t_, ("unreachable-code", {ln_}, None), base_))
     inputs = [[("m.s", t)] for _, t, _, _ in cases]
     impl, models, bad = correspondence("lints", inputs)
     first = None
